@@ -41,6 +41,9 @@ type injector struct {
 	byID   map[crypto.Hash]*injChain
 	seq    int
 	now    uint64
+	// certFn, when set, certifies snapshots from a dynamic membership view
+	// instead of the static genesis key vector.
+	certFn func(s *common.Snapshot) *crypto.CosiSignature
 }
 
 func newInjector(c *cluster.Cluster, rng *core.Rng) (*injector, error) {
@@ -77,6 +80,58 @@ func newInjector(c *cluster.Cluster, rng *core.Rng) (*injector, error) {
 		inj.byID[id] = ch
 	}
 	return inj, nil
+}
+
+// chainFor returns (creating from the reference node's store if needed) the
+// model of a chain that is not a genesis chain.
+func (inj *injector) chainFor(id crypto.Hash) *injChain {
+	if ch := inj.byID[id]; ch != nil {
+		return ch
+	}
+	ref := inj.c.Nodes[0]
+	head, err := ref.Store.ReadRound(id)
+	if err != nil || head == nil {
+		return nil
+	}
+	ch := &injChain{id: id, number: head.Number, refs: head.References.Copy(), closed: map[uint64]crypto.Hash{}, links: map[crypto.Hash]uint64{}}
+	for r := uint64(0); r < head.Number; r++ {
+		snaps, err := ref.Store.ReadSnapshotsForNodeRound(id, r)
+		if err != nil || len(snaps) == 0 {
+			return nil
+		}
+		_, h := roundHashRef(id, r, snaps)
+		ch.closed[r] = h
+		for _, s := range snaps {
+			if s.Timestamp > ch.lastTime {
+				ch.lastTime = s.Timestamp
+			}
+		}
+	}
+	for _, o := range inj.chains {
+		if l, err := ref.Store.ReadLink(id, o.id); err == nil {
+			ch.links[o.id] = l
+		}
+	}
+	if snaps, err := ref.Store.ReadSnapshotsForNodeRound(id, head.Number); err == nil {
+		ch.snaps = snaps
+		for _, s := range snaps {
+			if s.Timestamp > ch.lastTime {
+				ch.lastTime = s.Timestamp
+			}
+		}
+	}
+	inj.chains = append(inj.chains, ch)
+	inj.byID[id] = ch
+	return ch
+}
+
+func (inj *injector) chainIndex(id crypto.Hash) int {
+	for i, ch := range inj.chains {
+		if ch.id == id {
+			return i
+		}
+	}
+	return -1
 }
 
 func (inj *injector) threshold() int { return inj.n*2/3 + 1 }
@@ -221,10 +276,17 @@ func (inj *injector) nextWith(chainIdx int, newRound bool, tx *common.VersionedT
 	}
 	s.AddTransaction(tx.PayloadHash())
 	s.Hash = s.PayloadHash()
-	k := inj.threshold() + inj.rng.IntN(inj.n-inj.threshold()+1)
-	pos := inj.randomSigners(k)
-	sig := inj.sign(pos, s.Hash, -1)
-	s.Signature = &crypto.CosiSignature{Signature: sig, Mask: maskOf(pos)}
+	if inj.certFn != nil {
+		s.Signature = inj.certFn(s)
+		if s.Signature == nil {
+			return nil, fmt.Errorf("no certificate possible")
+		}
+	} else {
+		k := inj.threshold() + inj.rng.IntN(inj.n-inj.threshold()+1)
+		pos := inj.randomSigners(k)
+		sig := inj.sign(pos, s.Hash, -1)
+		s.Signature = &crypto.CosiSignature{Signature: sig, Mask: maskOf(pos)}
+	}
 	ch.snaps = append(ch.snaps, &common.SnapshotWithTopologicalOrder{Snapshot: s})
 	ch.lastTime = ts
 	return &injected{snap: s, tx: tx, chain: ch, applied: map[int]bool{}}, nil
